@@ -43,7 +43,8 @@ COMPONENTS = {
 def required_probes(tier):
     return ['switch_in_datatype_factory', 'two_actors_in_same_function', 'switch_in_load_library',
             'versions_overlap', 'strict_and_tolerant_overlap', 'cold_process_run', 'enumerated_switch_landed',
-            'switch_inside_module_import', 'thread_waited_for_import_lock',
+            'switch_inside_module_import', 'thread_waited_for_import_lock', 'fractional_switch_landed',
+            'calls_relying_on_configured_defaults',
             'concurrent_phase_before_reference_pass']
 
 
@@ -97,10 +98,29 @@ def generate_import_sweep(idx):
     return {'world': 'threads', 'seed': block, 'cfg': cfg, 'actors': actors}
 
 
+def generate_frac_sweep(idx):
+    """Enumerated switch positions over the *whole* first call, not only the state-owning modules: the
+    block's program is run once per j with actor 0 pre-empted (and held) after j/G of the line events its
+    own calls took in the sequential reference pass.  Programs are Message builds with Z segments,
+    component writes and group text, i.e. calls whose shared state, if any, would live in core.py."""
+    block = idx // SWEEP_G
+    rng = K.derive_rng('%s:C19-frac:%d' % (BASE_SEED, block), 'program')
+    shared = rng.choice(corpus.T.VERSIONS)
+    actors = []
+    for a in range(rng.choice([2, 2, 3])):
+        tok = gen.Tokens(start=a * 100000 + block * 100, prefix='abcd'[a])
+        actors.append([corpus.gen_call(rng, tok, cid='abcd'[a], kinds=['build', 'build', 'segment_build', 'parse_segment', 'field_override'],
+                                       invalid_p=0.0, version=shared if rng.random() < 0.7 else None)])
+    cfg = {'mean_budget': None, 'touch_p': 0, 'order': 'ref_first', 'sweep_frac': (idx % SWEEP_G + 0.5) / SWEEP_G}
+    return {'world': 'threads', 'seed': block, 'cfg': cfg, 'actors': actors}
+
+
 def generate(seed, idx, tier):
     b = (idx // SWEEP_G) % 6
     if b == 4:
         return generate_import_sweep(idx)
+    if b == 1:
+        return generate_frac_sweep(idx)
     if b % 3 != 2:
         return generate_sweep(idx)
     rng = K.derive_rng(seed, 'program')
@@ -112,7 +132,19 @@ def generate(seed, idx, tier):
         prog = [corpus.gen_call(rng, tok, cid='abcd'[a], version=shared_version if rng.random() < 0.5 else None)
                 for _ in range(rng.choice([1, 1, 2, 2, 3, 4]))]
         actors.append(prog)
+    if rng.random() < 0.2:
+        # the process defaults are configured (in the main thread); some calls rely on them
+        dv, dl = shared_version, rng.choice([1, 2])
+        for prog in actors:
+            for c in prog:
+                if c['kind'] in ('parse_segment', 'factory') and c.get('version') == dv and c.get('ec', 0) in (0, 'const') and rng.random() < 0.7:
+                    c['implicit'] = True
+                    c['level'] = dl
+        defaults = [dv, dl]
+    else:
+        defaults = None
     cfg = {'mean_budget': rng.choice([20, 200, 200, 2000, 20000, None]), 'touch_p': rng.choice([0, 0.1, 0.5]),
+           'defaults': defaults,
            'order': rng.choice(['ref_first', 'threads_first']),
            'deep_hold_at': sorted({int(2 ** (rng.random() * 12)) for _ in range(rng.choice([0, 1, 2, 3]))})}
     return {'world': 'threads', 'seed': seed, 'cfg': cfg, 'actors': actors}
@@ -133,6 +165,12 @@ def _execute(case):
         probes['sweep_run'] = 1
         if k.sweep_hit is not None:
             probes['enumerated_switch_landed'] = 1
+    if case['cfg'].get('sweep_frac') is not None:
+        probes['fractional_sweep_run'] = 1
+        if k.sweep_hit is not None:
+            probes['fractional_switch_landed'] = 1
+    if case['cfg'].get('defaults') and any(c.get('implicit') for prog in case['actors'] for c in prog):
+        probes['calls_relying_on_configured_defaults'] = 1
     if case['cfg'].get('cold_import'):
         probes['cold_import_run'] = 1
         if k.sweep_hit is not None and k.sweep_hit[0] == '<module>':
